@@ -307,6 +307,51 @@ func runC12(c *Ctx) {
 		c.MinInstances("C12.R9 scan-keeps-both-bounds", n, 2)
 	}
 
+	// ---- R11 the exclusive upper bound of a prefix scan is the successor of the prefix *as a
+	// prefix*: the byte string cut right after the byte that was incremented. Keeping the
+	// zeroed tail (01 ff → 02 00 instead of 02) lets the key 02 into the scan of prefix 01 ff,
+	// and the prefix scans trust the iterator bounds (no per-key prefix test).
+	if ub := c.Anchor("pkg/db.upperBound"); ub != nil {
+		n := 0
+		for _, r := range Returns(ub) {
+			if len(r.Results) != 1 {
+				continue
+			}
+			if kc, isC := r.Results[0].(*ssa.Const); isC && kc.Value == nil {
+				continue // nil: no upper bound
+			}
+			n++
+			sl, isSl := valueRoot(r.Results[0]).(*ssa.Slice)
+			ok := false
+			det := T(r.Results[0]).String()
+			if isSl && sl.High != nil && sl.Low == nil {
+				// High = index of an incremented element + 1
+				hi := newLin()
+				hi.add(linOf(T(sl.High)), 1)
+				for _, b := range blocksDeep(ub) {
+					for _, in := range b.Instrs {
+						st, isSt := in.(*ssa.Store)
+						if !isSt {
+							continue
+						}
+						ia, isIA := st.Addr.(*ssa.IndexAddr)
+						if !isIA {
+							continue
+						}
+						d := newLin()
+						d.add(hi, 1)
+						d.add(linOf(T(ia.Index)), -1)
+						if len(d.Coef) == 0 && d.Const == 1 {
+							ok = true
+						}
+					}
+				}
+			}
+			c.Require("C12.R11 prefix-successor-truncated", FuncKey(ub)+": returned bound", p.InstrPos(r), "the bound is cut right after the incremented byte (end[:i+1])", ok, det)
+		}
+		c.MinInstances("C12.R11 prefix-successor-truncated", n, 1)
+	}
+
 	// ---- R5 merge
 	{
 		// comparator: descending under reverse, ascending otherwise (less-function or three-way)
